@@ -471,9 +471,24 @@ def gen_tables() -> dict:
     return {"entities": len(ents), "terminators": term}
 
 
-def gen_all() -> dict:
-    return {"rules": gen_rules(), "presets": gen_presets(), "ruler_shape": gen_ruler_shape(),
-            "regexes": gen_regexes(), "tables": gen_tables()}
+def gen_all(tolerant: bool = False) -> dict:
+    """Regenerate every Gen/*.v from /repo.  Strict by default: any part that cannot be translated raises GenError (fail closed).
+    With tolerant=True the parts no check reads back (ruler shape, regexes, tables) may fail: their Gen file then stays as the last
+    successful translation left it - the model of the code as it was - and the errors are returned under "errors", so that the
+    caller can still run model and implementation side by side and look for a concrete failing input before it reports."""
+    out = {"rules": gen_rules(), "presets": gen_presets()}
+    errors = []
+    for name, f in (("ruler_shape", gen_ruler_shape), ("regexes", gen_regexes), ("tables", gen_tables)):
+        try:
+            out[name] = f()
+        except GenError as e:
+            if not tolerant:
+                raise
+            out[name] = None
+            errors.append(f"{name}: {e}")
+    if errors:
+        out["errors"] = errors
+    return out
 
 
 if __name__ == "__main__":
